@@ -142,7 +142,11 @@ def oracle_one(lib, sch, pop, text, target, strict, wd, tag, slot, kind, variant
                 pass
 
 
-def enumerate_targets(sch, pop):
+def enumerate_targets_all(sch, pop):
+    return enumerate_targets(sch, pop, include_derived=True)
+
+
+def enumerate_targets(sch, pop, include_derived=False):
     out = []
     for ii, inst in enumerate(pop["instances"]):
         members = [p["ent"] for p in inst["parts"]]
@@ -152,7 +156,7 @@ def enumerate_targets(sch, pop):
             else:
                 slots = sch.p21_slots(part["ent"])
             for si, sl in enumerate(slots):
-                if sl["derived"]:
+                if sl["derived"] and not include_derived:
                     continue
                 pos = "first" if si == 0 else ("last" if si == len(slots) - 1 else "middle")
                 inherited = (not inst["complex"]) and sl["owner"] != part["ent"]
